@@ -108,9 +108,9 @@ pub fn count_ladder_programs(tier: crate::shard::Tier) -> Vec<(usize, Vec<Stmt>)
     // LAST in each cell (how much is pending during marking depends on that order); afterwards an array literal
     // made of temporaries, a call, and a walk over the whole list
     {
-        let mut big: Vec<usize> = vec![(1 << 17) - 1, 1 << 17, (1 << 17) + 1, (1 << 19) - 1, 1 << 19, (1 << 19) + 1, 600_000, 1_000_000];
+        let mut big: Vec<usize> = vec![(1 << 17) - 1, 1 << 17, (1 << 17) + 1, (1 << 19) - 1, 1 << 19, (1 << 19) + 1, 600_000, 1_000_000, (1 << 21) + 1];
         if tier != crate::shard::Tier::Quick {
-            big.extend([100_000, 200_000, (1 << 18) + 1, 300_000, (1 << 20) + 1, (1 << 21) + 1, 3_000_000]);
+            big.extend([100_000, 200_000, (1 << 18) + 1, 300_000, (1 << 20) + 1, 3_000_000, (1 << 22) + 1]);
         }
         for n in big {
             let ni = n as i64;
